@@ -45,6 +45,9 @@ func (r *verifGoodReader) ReadAt(p []byte, off int64) (int, error) {
 	if r.closes > 0 {
 		vnd.Unreachable("ReadAt after Close on the source")
 	}
+	if off < 0 { // as os.File.ReadAt
+		return 0, verifIOErrorStatus
+	}
 	if off >= int64(len(r.data)) {
 		return 0, io.EOF
 	}
@@ -338,5 +341,42 @@ func Verif_C15_Z4_TaskConsumesSiblingClone() {
 	vnd.Assert(taskErr == nil && verifBytesEqual(taskData, ref.data), "the task's clone did not yield the complete object although the source is fine")
 	if how == 1 {
 		vnd.Assert(err == nil && verifBytesEqual(got, ref.data), "the caller's clone did not yield the complete object although the source is fine")
+	}
+}
+
+// Verif_C15_Z5_CloneRandomAccess: one stream clone is read with ReadAt at any offset
+// (also outside the object, where the skip phase fails before any data is used) while
+// the other clone reads everything: the source is closed exactly once, only after both
+// are done, and the full reader gets the complete object.
+func Verif_C15_Z5_CloneRandomAccess() {
+	n := 2
+	ref := verifNewRef(n)
+	src := &verifGoodReader{data: ref.data, split: vnd.Choose(2)}
+	integ := &verifIntegrity{}
+	var base Buffer
+	if vnd.Choose(2) == 0 {
+		base = NewCASBufferFromReader(ref.digest, src, BackendProvided(integ.callback))
+	} else {
+		base = NewValidatedBufferFromReaderAt(src, int64(n))
+	}
+	b1, b2 := base.CloneStream()
+	off := vnd.Choose(n+3) - 1
+	done := make(chan struct{})
+	var n1 int
+	var err1 error
+	go func() {
+		p := make([]byte, 1)
+		n1, err1 = b1.ReadAt(p, int64(off))
+		close(done)
+	}()
+	got, err := b2.ToByteSlice(100)
+	<-done
+	vnd.Assert(src.closes == 1, "underlying source not closed exactly once")
+	vnd.Assert(err == nil && verifBytesEqual(got, ref.data), "the clone that reads everything did not get the complete object (the source was closed under it?)")
+	if off < 0 || off > n {
+		vnd.Cover("z5-offset-outside")
+		vnd.Assert(err1 != nil && n1 == 0, "random access outside the object did not fail")
+	} else {
+		vnd.Cover("z5-offset-inside")
 	}
 }
